@@ -1,6 +1,6 @@
 SPECIFICATION Spec
 CONSTANTS
-  Sids = {1,2,3,4}
+  Sids = {1,2,3}
   Threads = {1}
   Deadlines = {0,1,2,3}
   MaxNow = 3
